@@ -34,6 +34,7 @@ import (
 	"github.com/mgtv-tech/redis-GunYu/config"
 	"github.com/mgtv-tech/redis-GunYu/pkg/log"
 	"github.com/mgtv-tech/redis-GunYu/pkg/redis/checkpoint"
+	"github.com/mgtv-tech/redis-GunYu/pkg/redis/client"
 	"github.com/mgtv-tech/redis-GunYu/pkg/vfdoubles"
 	"github.com/mgtv-tech/redis-GunYu/pkg/vfutil"
 )
@@ -156,6 +157,65 @@ func vfC17MDo(t *testing.T, s *vfutil.Session, c *vfC17MCase, tag int, src strin
 	s.Count("migrate_outcome_" + kind)
 	if len(lines) > 0 {
 		s.Distinct(fmt.Sprintf("m|%s|%s|%d|%d", kind, c.desired, len(lines), len(c.ns.journal)))
+	}
+	// monitor 2: the position the bidirectional start REALLY uses. Before: RedisOutput.StartPoint on the
+	// old namespace in its current mode. After every prefix: what the next start does — the real
+	// resolveBisyncCheckpointNameWithClient run again to completion on the crash state, then the real
+	// RedisOutput.StartPoint (bisyncStartPoint: root overridden by latest record / rebuilt frontier) on
+	// the namespace it returned, in the desired mode. It must not resume before the old position.
+	if c.old != "" {
+		bstart := func(tk *vfdoubles.Target, name string, mode checkpoint.BisyncMode) (int64, bool) {
+			rm := config.ReplayModeSync
+			switch mode {
+			case checkpoint.BisyncModePipeline:
+				rm = config.ReplayModePipeline
+			case checkpoint.BisyncModeParallel:
+				rm = config.ReplayModeParallel
+			}
+			ro := NewRedisOutput(RedisOutputConfig{InputName: "vf", CheckpointName: name, BisyncEnabled: true, ReplayMode: rm,
+				Redis: checkpoint.VfRedisCfg(), EnableResumeFromBreakPoint: true})
+			ro.newRedisConn = func(ctx context.Context) (client.Redis, error) { return checkpoint.VfConn(tk), nil }
+			sp, err := ro.StartPoint(context.Background(), c.ids)
+			if err != nil || (sp.RunId != c.ids[0] && sp.RunId != c.ids[1]) {
+				return 0, false
+			}
+			return sp.Offset, true
+		}
+		t0 := vfdoubles.Replay(log[:seedLen], 0)
+		cl := checkpoint.VfConn(t0)
+		cur, known, _ := checkpoint.LoadBisyncNamespaceMode(cl, c.old)
+		if !known {
+			cur, known, _ = sy.inferBisyncNamespaceMode(cl, c.old, c.ids, []uint16{0})
+		}
+		cl.Close()
+		if known {
+			if before, ok := bstart(t0, c.old, cur); ok {
+				for k := 0; k <= len(ws); k++ {
+					cut := seedLen
+					if k > 0 {
+						cut = ws[k-1] + 1
+					}
+					tk := vfdoubles.Replay(log[:cut], 0)
+					c2 := checkpoint.VfConn(tk)
+					name2, err2 := sy.resolveBisyncCheckpointNameWithClient(c2, c.ids, c.desired, []uint16{0})
+					c2.Close()
+					after, ok2 := int64(0), false
+					if err2 == nil {
+						after, ok2 = bstart(tk, name2, c.desired)
+					}
+					if err2 != nil || !ok2 || after < before {
+						req := "-"
+						if k > 0 {
+							req = lines[k-1]
+						}
+						s.Violate("migrate-next-start-regresses", fmt.Sprintf("the bidirectional start resumed at %d (namespace mode %s); stopped after request #%d (%s), the next start (switch to %s completed, then StartPoint) resumes at %d (ok=%v, err=%v) [%s]", before, cur, k, req, c.desired, after, ok2, err2, kind),
+							map[string]interface{}{"op": op, "crash_after_request": k, "before": before, "after": after})
+						break
+					}
+					s.Count("migrate_next_start_checked")
+				}
+			}
+		}
 	}
 	// monitor
 	pos := func(x string) (ok bool, off int64, db int, bad bool) {
